@@ -21,7 +21,9 @@ def keyfn(e, clause):
 
 def model(ctx: Ctx, digits: str) -> list[dict]:
     cfg = tlc.write_cfg(ctx.wd / "MC_National.cfg",
-                        [ln if not ln.startswith("CONSTANT") else f"CONSTANT DigitVals = {digits}"
+                        [ln if not ln.startswith("CONSTANT") else
+                         (f"CONSTANT DigitVals = {digits}" if "DigitVals" in ln else
+                          f"CONSTANT FullAlphabet = {'FALSE' if ctx.quick else 'TRUE'}")
                          for ln in (SPEC / "MC_National.cfg").read_text().splitlines()])
     dump = ctx.wd / "nat.dump"
     res = tlc.run_tlc("MC_National", cfg, ctx.wd / "meta-nat", workers="auto", heap="12g", timeout=3000,
@@ -87,7 +89,7 @@ def run(ctx: Ctx) -> dict:
     table = {gen.cc_of(r): r for r in ctx.table(env)}
     ops = []
     # (B) model states
-    states = model(ctx, "{48, 57}" if ctx.quick else "{48, 53, 57}")
+    states = model(ctx, "{48, 57}")
     bodies = [{"cc": st["cc"], "b": st["body"]} for st in states if st["k"] == 7 and st["variant"][0] == "asis"]
     fixed = nat_gen(ctx, bodies, "model")
     n_model = 0
